@@ -21,8 +21,7 @@ GENERAL = [p + "V" + s for p in "CP" for s in "SN"]
 # ---------------------------------------------------------------- generators
 def case_seqs(c):
     """the key sequences of a case line (skipping class, sentinel and the optional registration order o=...)"""
-    t = c.split()
-    return t[3:] if len(t) > 2 and t[2].startswith("o=") else t[2:]
+    return [x for x in c.split()[2:] if not (x.startswith("o=") or x.startswith("m="))]
 
 def seq_txt(s):
     return ",".join(map(str, s)) if s else "-"
@@ -107,22 +106,28 @@ def random_case(rng):
 # ---------------------------------------------------------------- API surface: which overload / instantiation a case runs
 ELEMS_COPY = ["e1", "e8", "e16"]        # sizeof <= 2*sizeof(size_t): the switch templates pick the copy classes
 ELEMS_PTR = ["e17", "e24"]              # larger: pointer classes
-CMPS = ["lt", "gt", "st+", "st-", "df"]
+CMPS = ["lt", "gt", "rk+", "rk-", "df"]     # rk = ByRank: owns heap state, destructor poisons it
 
 def flavour(rng, cls):
     """element type, comparator and how the class is named, drawn from the seed for every case.
     s = through tlx::LoserTree<> / tlx::LoserTreeUnguarded<> (P|C must agree with sizeof), m = move-constructed (PG classes)."""
-    via = rng.choice(["d", "d", "s", "s", "m"] if cls[:2] == "PG" else ["d", "s"])
+    via = rng.choice(["d", "d", "s", "s", "m"] if cls[1] == "G" else ["d", "s"])
+    cmp = rng.choice(CMPS)
+    # KeyGreater / ByRank are instantiated with e8 (copy-sized) and e17 (pointer-sized) only (harness build time)
+    full = cmp in ("lt", "df")
+    copy_e = ELEMS_COPY if full else ["e8"]
+    ptr_e = ELEMS_PTR if full else ["e17"]
     if via == "s":
-        elem = rng.choice(ELEMS_PTR if cls[0] == "P" else ELEMS_COPY)
+        elem = rng.choice(ptr_e if cls[0] == "P" else copy_e)
     else:
-        elem = rng.choice(ELEMS_COPY + ELEMS_PTR)
+        elem = rng.choice(copy_e + ptr_e)
     # where the caller keeps the keys: p = separate storage, l = one slot per player overwritten in place (same address passed
     # again), t = heap temporary freed right after the call (copy classes only: they must have copied the key)
     store = rng.choice(["p", "l", "l"] if cls[0] == "P" else ["p", "l", "t", "t"])
     # extra: bit 1 = init() twice in a row, bit 2 = guarded: three more delete_min_insert(nullptr, true) after the last key
-    extra = rng.choice([0, 0, 1, 2, 3])
-    return "%s:%s:%s:%s:%s:%d" % (cls, elem, rng.choice(CMPS), via, store, extra)
+    # bit 4 = the comparator is handed to the constructor as a temporary that dies (state poisoned) before the tree is used
+    extra = rng.choice([0, 0, 1, 2, 3]) + (4 if rng.chance(1, 2) else 0)
+    return "%s:%s:%s:%s:%s:%d" % (cls, elem, cmp, via, store, extra)
 
 def add_flavours(rng, cases, start):
     for i in range(start, len(cases)):
@@ -134,12 +139,12 @@ def flip_keys(c):
     """with a reversed comparator (gt, st-) 'small' means large: mirror the keys (1..99 -> 99..1) and the sentinel so that
     the generators' intent (sentinel not less than the keys, sorted runs, ...) survives"""
     t = c.split()
-    if t[0].split(":")[2] not in ("gt", "st-"):
+    if t[0].split(":")[2] not in ("gt", "st-", "rk-"):
         return c
     m = lambda x: str(100 - int(x))
     out = [t[0], "0" if t[0][1] == "G" else m(t[1])]
     for sq in t[2:]:
-        out.append(sq if sq == "-" or sq.startswith("o=") else ",".join(m(x) for x in sq.split(",")))
+        out.append(sq if sq == "-" or "=" in sq else ",".join(m(x) for x in sq.split(",")))
     return " ".join(out)
 
 def add_orders(rng, cases, start):
@@ -165,6 +170,26 @@ def add_orders(rng, cases, start):
             # re-registration: some player is listed a second time, earlier in the order
             order.insert(rng.below(len(order)), order[rng.below(len(order))])
         cases[i] = " ".join(t[:2] + ["o=" + ",".join(map(str, order))] + t[2:])
+
+def add_moves(rng, cases, start):
+    """move points: at up to three points of the history (before the first insert_start, between registrations, after init(),
+    between delete_min_insert calls) the tree is move-constructed into a fresh object; the model treats it as the identity"""
+    for i in range(start, len(cases)):
+        if not rng.chance(1, 2):
+            continue
+        t = cases[i].split()
+        at = 3 if t[2].startswith("o=") else 2
+        sq = t[at:]
+        nreg = len(t[2][2:].split(",")) if at == 3 else len(sq)
+        nkeys = sum(0 if q == "-" else q.count(",") + 1 for q in sq)
+        pts = set()
+        for _ in range(rng.range(1, 3)):
+            r = rng.below(4)
+            if r == 0: pts.add(rng.below(nreg + 1))                 # during registration (0 = before the first insert_start)
+            elif r == 1: pts.add(rng.range(1, max(1, nreg - 1)))    # strictly between two registrations when there are two
+            elif r == 2: pts.add(nreg + 1)                          # right after init()
+            else: pts.add(nreg + 2 + rng.below(nkeys + 1))          # between delete_min_insert calls
+        cases[i] = " ".join(t[:at] + ["m=" + ",".join(map(str, sorted(pts)))] + sq)
 
 REGIME_K = [1, 2, 3, 4, 5, 6, 7, 8, 9, 16, 17, 32, 33, 65]
 def regimes(rng, out, hist):
@@ -234,6 +259,7 @@ else:
         cases.append(random_case(rng))
     add_flavours(rng, cases, ncorpus)
     add_orders(rng, cases, ncorpus)
+    add_moves(rng, cases, ncorpus)
     for i in range(ncorpus, len(cases)):
         cases[i] = flip_keys(cases[i])
 casefile = os.path.join(ck.scratch, "cases.txt")
@@ -267,6 +293,7 @@ def canon(v, line):
     return " ".join(t)
 
 
+traits = "?"
 def api_surface():
     g = lambda k: fstats.get(k, 0)
     cls = lambda c: sum(n for v, n in stats.items() if v[0] == c[0] and (v[1] == c[1] or (c[1] == "U" and v[1] == "V")) and v[2] == c[2])
@@ -282,10 +309,19 @@ def api_surface():
         {"api": "tlx::LoserTree<Stable,T,Cmp> switch alias -> pointer classes (sizeof(T) in {17,24})", "called": g("switch->pointer") > 0, "cases": g("switch->pointer")},
         {"api": "tlx::LoserTreeUnguarded<Stable,T,Cmp> switch alias -> copy classes", "called": g("switch->copy unguarded") > 0, "cases": g("switch->copy unguarded")},
         {"api": "tlx::LoserTreeUnguarded<Stable,T,Cmp> switch alias -> pointer classes", "called": g("switch->pointer unguarded") > 0, "cases": g("switch->pointer unguarded")},
-        {"api": "guarded ctor (k, cmp) / unguarded ctor (k, sentinel, cmp) with an explicit comparator object: KeyLess, KeyGreater, stateful (+/-)",
-         "called": True, "cases": g("cmp=lt") + g("cmp=gt") + g("cmp=st+") + g("cmp=st-")},
+        {"api": "guarded ctor (k, cmp) / unguarded ctor (k, sentinel, cmp) with an explicit comparator object: KeyLess, KeyGreater, ByRank (+/-, owns heap state)",
+         "called": True, "cases": g("cmp=lt") + g("cmp=gt") + g("cmp=rk+") + g("cmp=rk-")},
         {"api": "ctor with the default comparator argument and default template argument Comparator = std::less<ValueType>", "called": g("cmp=df") > 0, "cases": g("cmp=df")},
-        {"api": "LoserTreePointerBase(LoserTreePointerBase&&) = default (move construction, then use of the moved-to tree)", "called": g("via=m") > 0, "cases": g("via=m")},
+        {"api": "move construction of the tree into a fresh object at any point of the history (before the first insert_start, between "
+                "insert_start calls, before / after init(), between delete_min_insert calls), old object destroyed, run continued on the new one; "
+                "std::is_move_constructible on this tree: " + traits,
+         "called": g("move between insert_start calls") > 0,
+         "cases": {"per point": {k2[5:]: n for k2, n in sorted(fstats.items()) if k2.startswith("move ")},
+                   "per class family": {t: g("moved/" + t) for t in ("CG", "PG", "CU", "PU", "CV", "PV")}, "via=m (moved before use)": g("via=m")}},
+        {"api": "constructor given a TEMPORARY comparator that owns heap state and poisons it in its destructor (the tree must hold a copy), next to the long-lived comparator mode",
+         "called": sum(g("temporary ByRank comparator/" + t) for t in ("CG", "PG", "CU", "PU", "CV", "PV")) > 0,
+         "cases": {"temporary, any explicit comparator": {t: g("temporary comparator/" + t) for t in ("CG", "PG", "CU", "PU", "CV", "PV")},
+                   "temporary ByRank": {t: g("temporary ByRank comparator/" + t) for t in ("CG", "PG", "CU", "PU", "CV", "PV")}}},
         {"api": "insert_start(const ValueType* keyp, source, sup) with keyp != nullptr, sup = false", "called": True, "cases": sum(stats.values())},
         {"api": "key storage: every key in its own storage, pointers into the sequences (as multiway_merge)", "called": g("store=p") > 0, "cases": g("store=p")},
         {"api": "key storage: ONE slot per player, overwritten in place, the same address passed again to delete_min_insert (all 12 class/regime tags; "
@@ -365,6 +401,8 @@ exe, log = ck.build_cpp("c09_harness", ["harness/C09/lt_harness.cpp"],
                         flags=None if ck.thorough() else ["-std=c++17", "-O0", "-g", "-fsanitize=address,undefined",
                                                            "-fno-sanitize-recover=all", "-fno-omit-frame-pointer"])
 drv, dlog = ck.ocaml_driver("C09")
+if exe is not None:
+    traits = verif.sh([exe, "--traits"], timeout=30)[1].strip()
 stats = {v: 0 for v in VARIANTS + GENERAL}
 kstats = {}
 fstats = {}
@@ -411,6 +449,9 @@ else:
             kk = len(case_seqs(c))
             fl = c.split(" ", 1)[0].split(":")
             if len(fl) == 6:
+                if int(fl[5]) & 4 and fl[2] != "df":
+                    fstats["temporary comparator/" + v[:2]] = fstats.get("temporary comparator/" + v[:2], 0) + 1
+                    if fl[2].startswith("rk"): fstats["temporary ByRank comparator/" + v[:2]] = fstats.get("temporary ByRank comparator/" + v[:2], 0) + 1
                 if int(fl[5]) & 1: fstats["init() twice"] = fstats.get("init() twice", 0) + 1
                 if int(fl[5]) & 2 and v[1] == "G": fstats["overrun: delete_min_insert(nullptr,true) after the last key"] = fstats.get("overrun: delete_min_insert(nullptr,true) after the last key", 0) + 1
                 for tag in (fl[1], "cmp=" + fl[2], "via=" + fl[3], v[:2] + "/" + fl[1], v[:2] + "/cmp=" + fl[2],
@@ -419,6 +460,16 @@ else:
                 if fl[3] == "s":
                     fstats["switch->" + ("copy" if v[0] == "C" else "pointer") + ("" if v[1] == "G" else " unguarded")] = \
                         fstats.get("switch->" + ("copy" if v[0] == "C" else "pointer") + ("" if v[1] == "G" else " unguarded"), 0) + 1
+            mt = [x for x in c.split()[2:5] if x.startswith("m=")]
+            if mt:
+                nreg_c = len(c.split()[2][2:].split(",")) if c.split()[2].startswith("o=") else kk
+                for mp in mt[0][2:].split(","):
+                    mp = int(mp)
+                    where = ("before the first insert_start" if mp == 0 else "between insert_start calls" if mp < nreg_c else
+                             "after the last insert_start, before init()" if mp == nreg_c else "after init()" if mp == nreg_c + 1 else
+                             "between delete_min_insert calls")
+                    fstats["move " + where] = fstats.get("move " + where, 0) + 1
+                fstats["moved/" + v[:2]] = fstats.get("moved/" + v[:2], 0) + 1
             otok = c.split()[2]
             if otok.startswith("o="):
                 o = otok[2:].split(",")
